@@ -1,5 +1,6 @@
 import TantivyModel.Proofs.WriterHistory
 import TantivyModel.Proofs.WriterMergeMeta
+import TantivyModel.Proofs.WriterBook
 /-!
 # C02 — A commit publishes exactly the sequential effect of the operations before it
 
@@ -67,6 +68,8 @@ def plainEvent : Event α → Bool
   | .deleteAll => false
   | .mergeStart _ _ => false
   | .mergeEnd _ => false
+  | .stamp _ => false
+  | .publish _ => false
   | _ => true
 
 theorem C02_okRun_of_plain (s : WState α) (es : List (Event α)) (h : es.all plainEvent = true) : okRun s es := by
@@ -110,20 +113,21 @@ that issued no delete, and the first operation after `rollback` is not a delete 
 starting with one).  `okRun2_of_okHist` shows that these imply the state-level hypotheses at every
 step of every run with that history. -/
 theorem C02_commit_refines_replay_history [DecidableEq α] (n : Nat) (es : List (Event α)) (s : WState α)
-    (hrun : run (WState.init n) es = some s) (hh : okHist HFlags.init (history es)) :
+    (hrun : run (WState.init n) es = some s) (hh : okHist HFlags.init (history es))
+    (hns : es.all (fun e => !isSubstep e) = true) :
     List.Perm (published s) (replay (history es)).committed :=
   (C02_commit_refines_replay_partial n es s hrun
-    (okRun2_of_okHist (WState.init n) SpecState.init HFlags.init es (inv_init n) (minv_init n) (flag_init n) hh)).1
+    (okRun2_of_okHist (WState.init n) SpecState.init HFlags.init es (inv_init n) (minv_init n) (flag_init n) hh hns)).1
 
 /-- **C02_history_verdict_decides.**  The executable scan `okHistB` - what the driver answers to
 `C02 clean …`, on which the harness bases every attribution to a known finding - decides exactly
 the hypothesis of `C02_commit_refines_replay_history`; hence whenever the driver says `clean`, the
 published documents of every run of the model with that history are the sequential replay. -/
 theorem C02_history_verdict_decides [DecidableEq α] (n : Nat) (es : List (Event α)) (s : WState α)
-    (hrun : run (WState.init n) es = some s) :
+    (hrun : run (WState.init n) es = some s) (hns : es.all (fun e => !isSubstep e) = true) :
     (okHistB HFlags.init (history es) = true ↔ okHist HFlags.init (history es))
     ∧ (okHistB HFlags.init (history es) = true → List.Perm (published s) (replay (history es)).committed) :=
-  ⟨okHistB_iff _ _, fun h => C02_commit_refines_replay_history n es s hrun ((okHistB_iff _ _).mp h)⟩
+  ⟨okHistB_iff _ _, fun h => C02_commit_refines_replay_history n es s hrun ((okHistB_iff _ _).mp h) hns⟩
 
 /-- F10 at the level of one segment (two producer threads; reproduced on the real code by the
 forced schedules of the harness): thread A stamps a batch `[add x (5), delete x (6), add y (7)]`
@@ -328,6 +332,106 @@ theorem C02_catchup_guard_le_counterexample :
       ∧ mergeCommitted 1 log 5 [a, b] = some ([2], 1) := by
   decide
 
+/-- **the early return of `advance_deletes` after a reverted stamper** (why the refinement theorem,
+whose state machine uses the core `advance`, transfers to the machine with bookkeeping only while
+the stamper never goes back - `C02_bookkeeping_refines` / `C02_bookkeeping_counterexample`), at
+the level of one segment:
+`delete_all_documents` reverts the stamper to the stale `committed_opstamp` (F1/F3), below the
+opstamp `T = 10` of `meta.json`.  A merge of two new uncommitted segments is running while
+`delete 1` (opstamp 3) is pushed; `end_merge` sees `3 < T`, catches the merged segment up "to the
+last commit" and records `delete_opstamp = T`.  The reused opstamps climb back: `delete 2` gets 9,
+the next commit gets exactly `T` - and `advance_deletes(M, T)` returns early ("already up-to-date"):
+document 2 is published although its delete (9) is older than the commit (10); the core `advance`
+deletes it.  The history (`…; commit; delete_all_documents; add 1; add 2; delete 1; …; delete 2;
+commit`) satisfies `okHist`: the refinement theorem holds for the core machine and, on this
+shape, does not transfer to the code. -/
+theorem C02_stale_catchup_lost_delete_counterexample :
+    let M : Seg Nat := { id := 7, docs := mkDocs [(1, 0), (2, 1)], cursor := 0 }
+    let log1 : List (DelOp Nat) := [⟨3, fun d => d == 1⟩]
+    let log2 : List (DelOp Nat) := log1 ++ [⟨9, fun d => d == 2⟩]
+    let M1 := catchUpWith Gen.END_MERGE_CATCHUP_CMP log1 10 M
+    M1.delOp = some 10 ∧ aliveDocs M1 = [2]
+      ∧ aliveDocs (advanceDeletes log2 10 M1) = [2]
+      ∧ aliveDocs (advance log2 10 M1) = [] := by
+  decide
+
+/-! ## the state machine with the bookkeeping of `advance_deletes` (`Model/WriterBook.lean`) -/
+
+/-- **C02_bookkeeping_refines.**  `stepD` / `runD` is the state machine in which every
+`advance_deletes` of `commit`, `merge` and `end_merge` has its bookkeeping (the early return when
+the entry's `delete_opstamp` is the target; a new `delete_opstamp` only when more documents are
+deleted than recorded; metas kept by segment id, the merged entry new, a re-created writer starts
+from the metas of `meta.json`).  For EVERY event sequence as in `C02_commit_refines_replay_partial`
+(any merges, workers, commits, rollbacks / reopen) in which the stamper never goes below
+`meta.opstamp` (`bookRun`: `delete_all_documents` only while `committed_opstamp`, which a commit
+leaves stale, is not below it - i.e. on a writer that has not committed since it was created)
+every run of that machine is, state by state, the run of the core machine - the early return only
+ever fires where the core is the identity (a merge of committed segments at the last commit, or an
+empty delete queue right after reopen) - and so publishes exactly the sequential replay.  Without
+the hypothesis on `delete_all_documents` this is false: `C02_bookkeeping_counterexample`. -/
+theorem C02_bookkeeping_refines [DecidableEq α] (n : Nat) (es : List (Event α)) (sD : WState α) (B : Book)
+    (hok : okRun2 (WState.init n) es) (hk : bookRun (WState.init n) es)
+    (hrun : runD (WState.init n, Book.init) es = some (sD, B)) :
+    run (WState.init n) es = some sD
+      ∧ List.Perm (published sD) (replay (history es)).committed
+      ∧ List.Perm (live sD) (replay (history es)).pending := by
+  have h := runD_run (WState.init n) Book.init SpecState.init es (sD, B) (inv_init n) (minv_init n) (binv_init n) hok hk hrun
+  exact ⟨h, C02_commit_refines_replay_partial n es sD h hok⟩
+
+theorem noSubsteps_of_bookHist (c : Bool) (es : List (Event α)) (h : bookHist c es = true) :
+    es.all (fun e => !isSubstep e) = true := by
+  induction es generalizing c with
+  | nil => rfl
+  | cons e es ih =>
+    simp only [bookHist, Bool.and_eq_true] at h
+    simp only [List.all_cons, Bool.and_eq_true]
+    refine ⟨?_, ih _ h.2⟩
+    cases e <;> first | rfl | (have := h.1; simp at this)
+
+/-- **C02_bookkeeping_refines_history**: the same from the sequence of calls alone - `okHist` (as in
+`C02_commit_refines_replay_history`) and `bookHist`: `delete_all_documents` is only called on a
+writer object that has not committed yet (since `IndexWriter::new` / `rollback`). -/
+theorem C02_bookkeeping_refines_history [DecidableEq α] (n : Nat) (es : List (Event α)) (sD : WState α) (B : Book)
+    (hh : okHist HFlags.init (history es)) (hk : bookHist false es = true)
+    (hrun : runD (WState.init n, Book.init) es = some (sD, B)) :
+    List.Perm (published sD) (replay (history es)).committed :=
+  (C02_bookkeeping_refines n es sD B
+    (okRun2_of_okHist (WState.init n) SpecState.init HFlags.init es (inv_init n) (minv_init n) (flag_init n) hh
+      (noSubsteps_of_bookHist false es hk))
+    (bookRun_of_hist _ false es (fun _ => Nat.le_refl _) hk) hrun).2.1
+
+/-- not vacuous, and the early return is exercised: the first commit (4) records
+`delete_opstamp = 4` for segment 0, the merge of the committed segments (target 4) takes the early
+return for it, the commit (6) writes the delete of document 2 into the merged segment; after the
+rollback the re-created writer starts from these metas -/
+example :
+    let es : List (Event Nat) :=
+      [.deleteAll, .add 1, .add 3, .recv 0, .recv 0, .cut 0, .register, .add 2, .recv 0, .cut 0, .register,
+       .del (fun d => d == 1), .commit none, .mergeStart [0, 1] true, .del (fun d => d == 2), .mergeEnd 0, .commit none,
+       .add 4, .rollback, .commit none]
+    bookHist false es = true
+      ∧ (runD (WState.init 1, Book.init) es).map (fun p => (published p.1, p.2.delOp 0, p.2.delOp 2))
+          = some ([3], some 4, some 6) := by
+  decide
+
+/-- **F11 in the state machine with bookkeeping** (`C02:reused-opstamp-advance-deletes-early-return`,
+reproduced on the real code by the harness scenario `stale_catchup`): five stamps, `commit` (5),
+`delete_all_documents` in a clean state (the stamper goes back to the stale `committed_opstamp` 0),
+two new segments, a merge of them (target 2) during which `delete 1` (3) is pushed - `end_merge`
+catches up to 5 and records it -, `delete 2` (4), `commit` - which draws 5 again: the machine with
+bookkeeping publishes 2, the core machine and the sequential replay nothing; the history satisfies
+the hypothesis `okHist` of `C02_commit_refines_replay_history`. -/
+theorem C02_bookkeeping_counterexample :
+    let es : List (Event Nat) :=
+      [.tick, .tick, .tick, .tick, .tick, .commit none, .deleteAll,
+       .add 1, .recv 0, .cut 0, .register, .add 2, .recv 0, .cut 0, .register,
+       .mergeStart [0, 1] true, .del (fun d => d == 1), .mergeEnd 0, .del (fun d => d == 2), .commit none]
+    (runD (WState.init 1, Book.init) es).map (fun p => (published p.1, p.1.metas.opstamp, p.2.delOp 2)) = some ([2], 5, some 5)
+      ∧ (run (WState.init 1) es).map published = some []
+      ∧ (replay (history es)).committed = []
+      ∧ okHistB HFlags.init (history es) = true := by
+  decide
+
 /-! ## the delete-cursor discipline, for every segment and every merged entry -/
 
 /-- **C02_cursor_discipline_invariant.**  In every run as in `C02_commit_refines_replay_partial`:
@@ -369,6 +473,7 @@ def stampedApi : Event α → Bool
   | .batch _ => true
   | .commit _ => true
   | .prepare => true
+  | .stamp _ => true
   | _ => false
 
 /-- events that do not move the stamper backwards (all but `delete_all_documents`, which reverts
@@ -447,6 +552,25 @@ theorem C02_step_opstamps (s s' : WState α) (e : Event α) (r : Nat) (h : step 
       · split at h
         · simp only [Option.some.injEq, Prod.mk.injEq] at h; obtain ⟨rfl, _⟩ := h; exact Nat.le_refl _
         · simp only [Option.some.injEq, Prod.mk.injEq] at h; obtain ⟨rfl, _⟩ := h; exact Nat.le_refl _
+  | stamp op =>
+    cases op with
+    | add d => simp only [step, Option.some.injEq, Prod.mk.injEq] at h; obtain ⟨rfl, rfl⟩ := h; simp
+    | del q => simp only [step, Option.some.injEq, Prod.mk.injEq] at h; obtain ⟨rfl, rfl⟩ := h; simp
+    | batch items =>
+      simp only [step, batch_fold, List.nil_append, Option.some.injEq, Prod.mk.injEq] at h
+      obtain ⟨rfl, rfl⟩ := h
+      simp; omega
+    | deleteAll => simp [step] at h
+    | commit p => simp [step] at h
+    | rollback => simp [step] at h
+    | prepare => simp [step] at h
+  | publish k =>
+    refine ⟨fun _ => ?_, by simp [stampedApi]⟩
+    simp only [step] at h
+    split at h
+    · cases h
+    · simp only [Option.some.injEq, Prod.mk.injEq] at h; obtain ⟨rfl, _⟩ := h; exact Nat.le_refl _
+    · simp only [Option.some.injEq, Prod.mk.injEq] at h; obtain ⟨rfl, _⟩ := h; exact Nat.le_refl _
 
 theorem C02_run_stamper_mono (s s' : WState α) (es : List (Event α)) (h : run s es = some s')
     (hk : es.all keepsStamper = true) : s.stamper ≤ s'.stamper := by
@@ -545,6 +669,253 @@ theorem C02_batch_one_unit (s s' : WState α) (w r : Nat) (h : step s (.recv w) 
       refine ⟨b, rest, wk, hc, rfl, hw, ?_⟩
       simp [hwlt, hseg]
   · cases h
+
+/-! ## producer sub-steps
+
+`add_document`, `delete_query` / `delete_term` and `run` are not atomic in the code: a producer
+thread first draws its stamps (`run` also queues its deletes), then sends its adds to the channel
+(`delete_*`: pushes the delete).  `Event.stamp` / `Event.publish` are these two sub-steps
+(`tantivy::verif::pause_point` sits between them; the forced schedules of the harness drive the
+real code through them and compare the outcome with this model, driver op `substeps`). -/
+
+/-- the atomic event of an API call that has two sub-steps -/
+def atomicOf : Op α → Option (Event α)
+  | .add d => some (.add d)
+  | .del q => some (.del q)
+  | .batch items => some (.batch items)
+  | _ => none
+
+theorem eraseIdx_concat_length {β : Type} (l : List β) (a : β) : (l ++ [a]).eraseIdx l.length = l := by
+  induction l with
+  | nil => rfl
+  | cons x l ih => simp [List.eraseIdx_cons_succ, ih]
+
+/-- **C02_substeps_atomic**: whatever other producers have stamped and not yet published, the first
+sub-step of a call immediately followed by its second one is the atomic event of the state machine
+(same state, same returned opstamp): the atomic events of the refinement theorem are exactly the
+calls whose two sub-steps are not interleaved with anything. -/
+theorem C02_substeps_atomic (s : WState α) (op : Op α) (e : Event α) (he : atomicOf op = some e) :
+    (step s (.stamp op)).bind (fun p => (step p.1 (.publish s.pendingPubs.length)).map (fun q => (q.1, p.2)))
+      = step s e := by
+  cases op with
+  | add d =>
+    simp only [atomicOf, Option.some.injEq] at he; subst he
+    simp [step, eraseIdx_concat_length]
+  | del q =>
+    simp only [atomicOf, Option.some.injEq] at he; subst he
+    simp [step, eraseIdx_concat_length]
+  | batch items =>
+    simp only [atomicOf, Option.some.injEq] at he; subst he
+    simp only [step, Option.bind_some, List.getElem?_concat_length, eraseIdx_concat_length, Option.map_some]
+  | deleteAll => simp [atomicOf] at he
+  | commit p => simp [atomicOf] at he
+  | rollback => simp [atomicOf] at he
+  | prepare => simp [atomicOf] at he
+
+/-- every API call as its two sub-steps, one right after the other -/
+def expandEvent : Event α → List (Event α)
+  | .add d => [.stamp (.add d), .publish 0]
+  | .del q => [.stamp (.del q), .publish 0]
+  | .batch items => [.stamp (.batch items), .publish 0]
+  | e => [e]
+
+def expand (es : List (Event α)) : List (Event α) := es.flatMap expandEvent
+
+theorem history_expand (es : List (Event α)) : history (expand es) = history es := by
+  induction es with
+  | nil => rfl
+  | cons e es ih =>
+    have : history (expandEvent e) = history [e] := by
+      cases e <;> simp [expandEvent, history, Event.toOp]
+    simp only [expand, List.flatMap_cons, history, List.filterMap_append] at *
+    rw [ih, this]
+    simp [List.filterMap_cons]
+    cases e.toOp <;> rfl
+
+/-- no atomic event leaves anything stamped-but-unpublished behind -/
+theorem step_pending_nil (s s' : WState α) (e : Event α) (r : Nat) (h : step s e = some (s', r))
+    (hns : isSubstep e = false) (hp : s.pendingPubs = []) : s'.pendingPubs = [] := by
+  cases e with
+  | add d => simp only [step, Option.some.injEq, Prod.mk.injEq] at h; obtain ⟨rfl, _⟩ := h; exact hp
+  | del q => simp only [step, Option.some.injEq, Prod.mk.injEq] at h; obtain ⟨rfl, _⟩ := h; exact hp
+  | batch items => simp only [step, Option.some.injEq, Prod.mk.injEq] at h; obtain ⟨rfl, _⟩ := h; exact hp
+  | deleteAll => simp only [step, Option.some.injEq, Prod.mk.injEq] at h; obtain ⟨rfl, _⟩ := h; exact hp
+  | rollback => simp only [step, Option.some.injEq, Prod.mk.injEq] at h; obtain ⟨rfl, _⟩ := h; rfl
+  | commit p =>
+    simp only [step] at h
+    split at h
+    · simp only [Option.some.injEq, Prod.mk.injEq] at h; obtain ⟨rfl, _⟩ := h; exact hp
+    · cases h
+  | prepare =>
+    simp only [step] at h
+    split at h
+    · simp only [Option.some.injEq, Prod.mk.injEq] at h; obtain ⟨rfl, _⟩ := h; exact hp
+    · cases h
+  | recv w =>
+    simp only [step] at h
+    split at h
+    · split at h
+      · split at h
+        · cases h
+        · simp only [Option.some.injEq, Prod.mk.injEq] at h; obtain ⟨rfl, _⟩ := h; exact hp
+      · simp only [Option.some.injEq, Prod.mk.injEq] at h; obtain ⟨rfl, _⟩ := h; exact hp
+    · cases h
+  | cut w =>
+    simp only [step] at h
+    split at h
+    · split at h
+      · simp only [Option.some.injEq, Prod.mk.injEq] at h; obtain ⟨rfl, _⟩ := h; exact hp
+      · cases h
+    · cases h
+  | register =>
+    simp only [step] at h
+    split at h
+    · simp only [Option.some.injEq, Prod.mk.injEq] at h; obtain ⟨rfl, _⟩ := h; exact hp
+    · cases h
+  | tick => simp only [step, Option.some.injEq, Prod.mk.injEq] at h; obtain ⟨rfl, _⟩ := h; exact hp
+  | flush => simp only [step, Option.some.injEq, Prod.mk.injEq] at h; obtain ⟨rfl, _⟩ := h; exact hp
+  | mergeStart ids policy =>
+    simp only [step] at h
+    split at h
+    · cases h
+    · split at h
+      · simp only [Option.some.injEq, Prod.mk.injEq] at h; obtain ⟨rfl, _⟩ := h; exact hp
+      · split at h
+        · simp only [Option.some.injEq, Prod.mk.injEq] at h; obtain ⟨rfl, _⟩ := h; exact hp
+        · cases h
+  | mergeEnd k =>
+    simp only [step] at h
+    split at h
+    · cases h
+    · split at h
+      · simp only [Option.some.injEq, Prod.mk.injEq] at h; obtain ⟨rfl, _⟩ := h; exact hp
+      · split at h
+        · simp only [Option.some.injEq, Prod.mk.injEq] at h; obtain ⟨rfl, _⟩ := h; exact hp
+        · simp only [Option.some.injEq, Prod.mk.injEq] at h; obtain ⟨rfl, _⟩ := h; exact hp
+  | stamp op => simp [isSubstep] at hns
+  | publish k => simp [isSubstep] at hns
+
+theorem run_append (s : WState α) (l1 l2 : List (Event α)) :
+    run s (l1 ++ l2) = (run s l1).bind (fun s' => run s' l2) := by
+  induction l1 generalizing s with
+  | nil => rfl
+  | cons e l1 ih =>
+    simp only [List.cons_append, run]
+    cases step s e with
+    | none => rfl
+    | some p => exact ih p.1
+
+theorem run_two_of_eq (s : WState α) (e1 e2 e : Event α)
+    (h : (step s e1).bind (fun p => (step p.1 e2).map (fun q => (q.1, p.2))) = step s e) :
+    run s [e1, e2] = run s [e] := by
+  simp only [run]
+  rw [← h]
+  cases step s e1 with
+  | none => rfl
+  | some p =>
+    obtain ⟨s1, r1⟩ := p
+    simp only [Option.bind_some]
+    cases step s1 e2 with
+    | none => rfl
+    | some q => obtain ⟨s2, r2⟩ := q; rfl
+
+theorem run_expandEvent (s : WState α) (e : Event α) (hp : s.pendingPubs = []) :
+    run s (expandEvent e) = run s [e] := by
+  have h0 : s.pendingPubs.length = 0 := by rw [hp]; rfl
+  cases e with
+  | add d =>
+    have := C02_substeps_atomic s (.add d) (.add d) rfl
+    rw [h0] at this
+    exact run_two_of_eq s _ _ _ this
+  | del q =>
+    have := C02_substeps_atomic s (.del q) (.del q) rfl
+    rw [h0] at this
+    exact run_two_of_eq s _ _ _ this
+  | batch items =>
+    have := C02_substeps_atomic s (.batch items) (.batch items) rfl
+    rw [h0] at this
+    exact run_two_of_eq s _ _ _ this
+  | _ => rfl
+
+theorem run_expand (s : WState α) (es : List (Event α)) (hns : es.all (fun e => !isSubstep e) = true)
+    (hp : s.pendingPubs = []) : run s (expand es) = run s es := by
+  induction es generalizing s with
+  | nil => rfl
+  | cons e es ih =>
+    simp only [List.all_cons, Bool.and_eq_true, Bool.not_eq_true'] at hns
+    show run s (expandEvent e ++ expand es) = run s (e :: es)
+    rw [run_append, run_expandEvent s e hp]
+    simp only [run]
+    cases hs : step s e with
+    | none => rfl
+    | some p =>
+      obtain ⟨s', r⟩ := p
+      exact ih s' (by simpa using hns.2) (step_pending_nil s s' e r hs hns.1 hp)
+
+/-- **C02_commit_refines_replay_substeps_adjacent**: the refinement theorem for runs in which every
+`add_document` / `delete_*` / `run` is written as its two sub-steps, as long as the two sub-steps
+of a call are adjacent (any number of producer threads whose calls do not overlap between stamp
+and send; workers, merges, commits, rollbacks anywhere).  What is outside - sub-steps of two calls
+interleaved - is false in general: `C02_substeps_counterexample` (F10). -/
+theorem C02_commit_refines_replay_substeps_adjacent [DecidableEq α] (n : Nat) (es : List (Event α)) (s : WState α)
+    (hns : es.all (fun e => !isSubstep e) = true)
+    (hrun : run (WState.init n) (expand es) = some s) (hok : okRun2 (WState.init n) es) :
+    List.Perm (published s) (replay (history (expand es))).committed
+      ∧ List.Perm (live s) (replay (history (expand es))).pending := by
+  rw [history_expand]
+  rw [run_expand (WState.init n) es hns rfl] at hrun
+  exact C02_commit_refines_replay_partial n es s hrun hok
+
+/-- **F10 in the state machine** (`C02:producer-race-skip-to-passes-own-delete`; reproduced on the
+real code by the forced schedule `s1 s2 p2 p1`): producer A stamps the batch
+`[add 10, delete 10, add 11]` (stamps 0, 1, 2, returns 3) and queues its delete; producer B stamps
+`add 12` (4) and is sent first; the worker starts a segment with 12 - `skip_to(4)` moves its
+cursor past A's delete - and cuts it; then A's adds arrive and form the next segment, whose cursor
+starts after the delete: the commit publishes 10, although in both orders of the two calls the
+sequential replay deletes it. -/
+theorem C02_substeps_counterexample :
+    let a : Op Nat := .batch [.add 10, .del (fun d => d == 10), .add 11]
+    let b : Op Nat := .add 12
+    let es : List (Event Nat) :=
+      [.stamp a, .stamp b, .publish 1, .recv 0, .cut 0, .publish 0, .recv 0, .cut 0, .register, .register, .commit none]
+    (run (WState.init 1) es).map published = some [12, 10, 11]
+      ∧ (replay (history es)).committed = [11, 12]
+      ∧ (replay [b, a, .commit none]).committed = [12, 11] := by
+  decide
+
+/-- **returned opstamps do not order overlapping calls**: `delete 10` stamps first (0), `add 10`
+second (1) and is sent first.  If the worker cuts the segment before the delete is pushed, the
+commit applies the delete to the finished segment (no per-document opstamps any more,
+`DocToOpstampMapping::None`): 10 is deleted - the sequential effect in the order add, delete, not
+in stamp order; if the worker takes the batch after the push, `skip_to(1)` passes the delete and
+10 survives.  Both outcomes are sequential effects of the two overlapping calls in SOME order
+(what the forced schedules of the harness accept), unlike `C02_substeps_counterexample`. -/
+theorem C02_substeps_stamp_order_counterexample :
+    let a : Op Nat := .del (fun d => d == 10)
+    let b : Op Nat := .add 10
+    let eager : List (Event Nat) := [.stamp a, .stamp b, .publish 1, .recv 0, .cut 0, .register, .publish 0, .commit none]
+    let lazy : List (Event Nat) := [.stamp a, .stamp b, .publish 1, .publish 0, .recv 0, .cut 0, .register, .commit none]
+    (run (WState.init 1) eager).map published = some []
+      ∧ (run (WState.init 1) lazy).map published = some [10]
+      ∧ (replay (history eager)).committed = [10]
+      ∧ (replay [b, a, .commit none]).committed = [] := by
+  decide
+
+/-- the same two calls with the sub-steps of A adjacent (B stamps in between or not): 10 is deleted -/
+example :
+    let a : Op Nat := .batch [.add 10, .del (fun d => d == 10), .add 11]
+    let b : Op Nat := .add 12
+    (run (WState.init 1)
+      [.stamp a, .publish 0, .stamp b, .publish 0, .recv 0, .cut 0, .recv 0, .cut 0, .register, .register, .commit none]).map
+        published = some [11, 12] := by
+  decide
+
+/-- `C02_commit_refines_replay_substeps_adjacent` is not vacuous -/
+example : (expand ([.add 1, .del (fun d => d == 1), .commit none] : List (Event Nat))).length = 5
+    ∧ okRun2 (WState.init 1) ([.add (1 : Nat), .recv 0, .cut 0, .register, .commit none]) := by
+  refine ⟨by decide, ?_⟩
+  exact okRun2_of_okHist (WState.init 1) SpecState.init HFlags.init _ (inv_init 1) (minv_init 1) (flag_init 1)
+    (by show okHist HFlags.init [Op.add 1, Op.commit none]; simp [okHist, okOp]) (by decide)
 
 /-! ## the three (four) counter-examples: the unrestricted statement is false
 
